@@ -192,8 +192,15 @@ func VerifC04RoundTrip() {
 	var rep []string
 	hasQ, hasNote, hasF := true, true, d.form
 	n := zv.Param("othlen", 1)
-	pos := zv.Choose("arbitrary-position", 6)
+	pos := zv.Choose("arbitrary-position", 7)
+	sameNameKey := false
 	switch pos {
+	case 6: // a path value that looks percent-encoded itself
+		if zv.Param("hexlen", 1) == 1 {
+			id = "%4" + zv.StringN("id-hex", 1)
+		} else {
+			id = "%" + zv.StringN("id-hex", 2)
+		}
 	case 0:
 		id = zv.String("id", zv.Param("vallen", 2))
 		zv.Assume(len(id) > 0)
@@ -212,6 +219,8 @@ func VerifC04RoundTrip() {
 			return
 		}
 		f = zv.String("f", n)
+		// an API key travelling in the query under the very name of the form field
+		sameNameKey = zv.Choose("query-key-named-like-the-form-field", 2) == 1
 	case 4: // repeated query values
 		rep = []string{zv.String("r0", 1), zv.String("r1", 1)}
 	default: // what the handler answers
@@ -233,6 +242,9 @@ func VerifC04RoundTrip() {
 	rt.Producers["application/x-www-form-urlencoded"] = runtime.DiscardProducer
 	if pos == 1 && zv.Choose("default-auth", 2) == 1 {
 		rt.DefaultAuthentication = APIKeyAuth("api_key", "query", "k e+y")
+	}
+	if sameNameKey {
+		rt.DefaultAuthentication = APIKeyAuth("f", "query", "the-api-key")
 	}
 	var gotCode int
 	var gotReply string
